@@ -241,6 +241,14 @@ def coerce_argument_values(
             if isinstance(arg.value, _ast.Variable):
                 varname = arg.value.name.value
                 if varname in variables:
+                    if variables[varname] is None and isinstance(
+                        arg_type, NonNullType
+                    ):
+                        raise CoercionError(
+                            'Argument "%s" of non-null type "%s" must not be null.'
+                            % (arg_name, arg_type),
+                            [node],
+                        )
                     coerced_values[target_name] = variables[varname]
                 elif arg_def.has_default_value:
                     coerced_values[target_name] = arg_def.default_value
